@@ -24,6 +24,7 @@ import (
 type c06Call struct {
 	Kind   string `json:"kind"`   // call | sub
 	Cancel string `json:"cancel"` // none | before | running | race | established | pending (subscription cancelled before its call was answered)
+	Bare   bool   `json:"bare,omitempty"` // sub: through the method whose only result is the channel
 }
 
 type c06Case struct {
@@ -80,12 +81,14 @@ func runC06(c c06Case) (*Violation, string) {
 			plan = Plan{N: 6, Pace: true, Linger: true, Early: 1}
 			if cc.Cancel == "pending" || cc.Cancel == "before" {
 				plan.Gate = true // the subscribing call is still unanswered when it is cancelled
+			} else {
+				plan.Bare = cc.Bare
 			}
 		}
 		go func(s *st, plan Plan) {
 			defer close(p.Done)
 			if s.Kind == "sub" {
-				p.Ch, p.Err = cl.C.Sub(s.ctx, s.tok, plan)
+				p.Ch, p.Err = cl.C.OpenSub(s.ctx, s.tok, plan)
 			} else {
 				p.Res, p.Err = cl.C.Call(s.ctx, s.tok, plan)
 			}
@@ -299,7 +302,7 @@ func TestC06(t *testing.T) {
 		for mask := 1; mask < 7; mask++ { // subscriptions: strict non-empty subsets of 3, plus an uncancelled unary call
 			calls := []c06Call{{Kind: "call", Cancel: "none"}}
 			for i := 0; i < 3; i++ {
-				cc := c06Call{Kind: "sub", Cancel: "none"}
+				cc := c06Call{Kind: "sub", Cancel: "none", Bare: (mask+i)%2 == 0}
 				if mask&(1<<i) != 0 {
 					cc.Cancel = "established"
 				}
@@ -346,7 +349,8 @@ func TestC06(t *testing.T) {
 		if c.Transport == "ws" {
 			m := rapid.IntRange(0, 3).Draw(rt, "nsubs")
 			for i := 0; i < m; i++ {
-				c.Calls = append(c.Calls, c06Call{Kind: "sub", Cancel: rapid.SampledFrom([]string{"none", "established", "established", "pending", "before"}).Draw(rt, fmt.Sprintf("scancel%d", i))})
+				c.Calls = append(c.Calls, c06Call{Kind: "sub", Cancel: rapid.SampledFrom([]string{"none", "established", "established", "pending", "before"}).Draw(rt, fmt.Sprintf("scancel%d", i)),
+					Bare: rapid.IntRange(0, 2).Draw(rt, fmt.Sprintf("sbare%d", i)) == 0})
 			}
 			nr := rapid.IntRange(0, 3).Draw(rt, "nrules")
 			for i := 0; i < nr; i++ {
